@@ -154,3 +154,11 @@ package logicalplan
 //@       istype(cast(*current, *parser.AggregateExpr).Expr, logicalplan.Coalesce)
 //@   ensures[C10] other-nodes-are-sent-whole-only-below-a-non-distributive-parent: callres("logicalplan.isDistributive", 1) && !istype(old(*current), *parser.AggregateExpr) ==>
 //@       (result <==> !callres("logicalplan.isDistributive", 2)) && (result ==> istype(*current, logicalplan.Coalesce)) && (!result ==> *current == old(*current))
+
+// MergeSelectsOptimizer.Optimize (C12, C20): optimizers are shared by every query of an engine (and the
+// default list by every engine of the process): the working state of one run - the heap of recorded
+// selectors - must be this call's own allocation, never state kept on the optimizer.
+//@ func (MergeSelectsOptimizer).Optimize
+//@   panics may
+//@   at logicalplan.extractSelectors assert[C12,C20] the-selector-heap-is-this-calls-own: fresh($selectors) && !isnil($selectors)
+//@   at logicalplan.replaceMatchers assert[C12,C20] the-rewrite-uses-this-calls-heap: fresh($selectors) && !isnil($selectors)
